@@ -163,11 +163,31 @@ def validate_batches(rep, wd, module, cfg, batches, key_prefix, describe):
     rep.notes[:] = rep.notes[:20]
 
 
+def n_traces_big(batches):
+    return 10 ** 6
+
+
 def trace_validation(rep, wd, tier, seed):
     n = 3000 if tier == 'thorough' else 320
     chunks = core.split(list(range(n)), core.NCPU)
     with ProcessPoolExecutor(len(chunks)) as ex:
         batches = list(ex.map(_drive_traces, [(seed, c[0], c[-1] + 1) for c in chunks]))
+    # large inputs: more than 64 KiB through one blocker and through the one-shot function
+    big = []
+    for i, total in enumerate((65536 + 300, 70000, 131072 + 17)):
+        r = drv.rng(seed, 'c04-big', i)
+        data = bytes((j * 7 + j // 251) % 251 + 1 if (j * 7 + j // 251) % 251 + 1 != 64 else 65 for j in range(total))
+        chunks, pos = [], 0
+        while pos < total:
+            n = min(total - pos, r.choice((total, 4096, 65536, 1012, 70000)))
+            chunks.append(data[pos:pos + n])
+            pos += n
+        evs = [{'op': 'write', 'n': len(c), 'bytes': list(c)} for c in chunks]
+        evs.append({'op': 'final', 'n': 0, 'bytes': list(drv.run_blocker(chunks, FINALISERS[i % 3]))})
+        evs.append({'op': 'oneshot', 'n': 0, 'bytes': list(drv.run_oneshot_block(data))})
+        big.append({'tid': n_traces_big(batches) + i, 'kind': 'blocker', 'file': [], 'events': evs,
+                    '_desc': '%d bytes in %d writes, then the one-shot blocker on the same data' % (total, len(chunks))})
+    batches.append(big)
     rep.sample({'trace': batches[0][1]['_desc'], 'file_len': len(batches[0][1]['events'][-1]['bytes'])})
 
     def describe(t, r):
